@@ -144,20 +144,28 @@ Lemma sexec_foreach a k v b : sexec cm funs clos (S n) vs fn (SForeach a k v b) 
       end
   end.
 Proof. reflexivity. Qed.
-Definition srun_clause (b : stmt) (fr : frame) (g : glob) : res ictl :=
-  match sexec cm funs clos n vs fn b fr g with
-  | Fuel => Fuel
-  | Res cb fr g => Res (switch_ctl cb) fr g
+Definition srunc := fix run (l : clauses) (fr : frame) (g : glob) : res ictl :=
+  match l with
+  | CLNil => Res INone fr g
+  | CLCase _ b r | CLDefault b r =>
+      match sexec cm funs clos n vs fn b fr g with
+      | Fuel => Fuel
+      | Res cb fr g =>
+          match cb with
+          | INone => run r fr g
+          | _ => Res (switch_ctl cb) fr g
+          end
+      end
   end.
 Definition scases (cl : clauses) (cv : value) := fix cases (l : clauses) (fr : frame) (g : glob) : res ictl :=
   match l with
-  | CLNil => match default_of cl None with Some b => srun_clause b fr g | None => Res INone fr g end
+  | CLNil => srunc (default_entry cl) fr g
   | CLDefault _ r => cases r fr g
-  | CLCase e b r =>
+  | CLCase e _ r =>
       match ev e fr g with
       | Fuel => Fuel
       | Res (EX x) fr g => Res (IThrow x) fr g
-      | Res (EV v) fr g => if switch_match cv v then srun_clause b fr g else cases r fr g
+      | Res (EV v) fr g => if switch_match cv v then srunc l fr g else cases r fr g
       end
   end.
 Lemma sexec_switch c cl : sexec cm funs clos (S n) vs fn (SSwitch c cl) fr g =
@@ -178,10 +186,8 @@ Lemma sexec_return e : sexec cm funs clos (S n) vs fn (SReturn (Some e)) fr g =
   | Res (EV v) fr g => Res (IRet v) fr g | Res (EX x) fr g => Res (IThrow x) fr g | Fuel => Fuel end.
 Proof. reflexivity. Qed.
 Lemma sexec_static x init : sexec cm funs clos (S n) vs fn (SStatic x init) fr g =
-  if String.eqb fn "" then let '(fr', g') := swr vs fn x init fr g in Res INone fr' g'
-  else
-    let st := match sget (fn, x) (gstat g) with Some _ => gstat g | None => sset (fn, x) init (gstat g) end in
-    Res INone (fst fr, x :: snd fr) (set_stat st g).
+  let st := match sget (fn, x) (gstat g) with Some _ => gstat g | None => sset (fn, x) init (gstat g) end in
+  Res INone (fst fr, x :: snd fr) (set_stat st g).
 Proof. reflexivity. Qed.
 Lemma sexec_try b cs f : sexec cm funs clos (S n) vs fn (STry b cs f) fr g =
   match sexec cm funs clos n vs fn b fr (mark CTry g) with
